@@ -32,6 +32,7 @@ type loopDesc struct {
 	condT     func(st *State) Term // overrides cond
 	postF     func(st *State)      // overrides post
 	hidden    *types.Var
+	keyObj    types.Object // range key declared by the loop (alias of the hidden counter)
 	extraMods []types.Object
 }
 
@@ -496,6 +497,9 @@ func (fx *FuncCtx) execRange(st *State, x *ast.RangeStmt, label string) Flow {
 		}
 	}
 	ld.postF = func(s *State) { s.vars[hid] = Add(s.vars[hid].(Term), IntLit(1)) }
+	if x.Key != nil && !isBlank(x.Key) && x.Tok == token.DEFINE {
+		ld.keyObj = fx.info.Defs[x.Key.(*ast.Ident)]
+	}
 	ld.extraMods = []types.Object{hid}
 	if x.Tok == token.ASSIGN {
 		for _, e := range []ast.Expr{x.Key, x.Value} {
@@ -735,6 +739,9 @@ func (fx *FuncCtx) execLoop(pre *State, ld *loopDesc) Flow {
 	for _, o := range ld.extraMods {
 		ms.vars[o] = true
 	}
+	if ld.keyObj != nil {
+		ms.vars[ld.keyObj] = true
+	}
 	bodyDefs := fx.bodyDefinitions(ld.body)
 
 	it := Term{fmt.Sprintf("it@L%d%s", ord, fx.inlineSuffix()), SInt}
@@ -868,6 +875,9 @@ func (fx *FuncCtx) execLoop(pre *State, ld *loopDesc) Flow {
 				if shift != 0 {
 					s.vars[l.obj] = Add(l.v0, Mul(IntLit(shift), l.step))
 				}
+				if l.obj == ld.hidden && ld.keyObj != nil {
+					s.vars[ld.keyObj] = Add(l.v0, Mul(IntLit(shift), l.step))
+				}
 			}
 			var t Term
 			ok := true
@@ -891,7 +901,7 @@ func (fx *FuncCtx) execLoop(pre *State, ld *loopDesc) Flow {
 		ast.Inspect(qv.step, func(n ast.Node) bool {
 			if id, ok := n.(*ast.Ident); ok {
 				if obj := fx.info.ObjectOf(id); obj != nil && ms.vars[obj] {
-					found := false
+					found := obj == ld.keyObj
 					for _, l := range lins {
 						if l.obj == obj {
 							found = true
